@@ -4,6 +4,28 @@ from concurrent.futures import ThreadPoolExecutor
 from .. import sweeprun, histrun, common, build
 
 
+def line_coverage():
+    """gcov line coverage of every library source under a reduced sweep + histories (per data configuration)"""
+    out = {}
+    for cfg in ('shipped', 'kissel'):
+        L = build.lib(cfg, 'cov')
+        for f in os.listdir(L['dir']):
+            if f.endswith('.gcda'):
+                os.unlink(os.path.join(L['dir'], f))
+        sweeprun.run(cfg, 'cov', 20000, nshards=8)
+        histrun.run(cfg, 'cov', 'alloc', 400, 150, nshards=8)
+        if cfg == 'shipped':
+            histrun.run(cfg, 'cov', 'crystal', 400, 150, nshards=8, builtin_runs=1)
+        for f in sorted(os.listdir(L['dir'])):
+            if not f.endswith('.gcda') or f.startswith('xrayglob_inline'):
+                continue
+            p = subprocess.run(['gcov', '-n', '-o', L['dir'], os.path.join(L['dir'], f[:-5] + '.o')], cwd=L['dir'], stdout=subprocess.PIPE, stderr=subprocess.STDOUT)
+            m = re.search(r"File '[^']*/src/([^']+\.c)'\s*\nLines executed:([0-9.]+)% of (\d+)", p.stdout.decode('utf8', 'replace'))
+            if m:
+                out['%s@%s' % (m.group(1), cfg)] = dict(percent=float(m.group(2)), lines=int(m.group(3)))
+    return out
+
+
 def fuzz(ck, target, runs, max_len, workers):
     """coverage-guided hostile inputs (libFuzzer + ASan/UBSan, count-bounded): returns (executions, features covered)"""
     binp = build.harness('shipped', 'fuzz', target)
@@ -89,6 +111,8 @@ def main(tier):
     fz = {}
     for target, runs, ml in (('fuzz_parser', 30000 if tier == 'quick' else 2000000, 160), ('fuzz_crystalfile', 15000 if tier == 'quick' else 1000000, 3000)):
         fz[target] = fuzz(ck, target, runs, ml, 4 if tier == 'quick' else 8)
+    # (e) reach: line coverage of the library sources under the sweep + histories (thorough only; evidence, not a verdict)
+    reach = line_coverage() if tier == 'thorough' else {}
     if tot['calls'] < 50000 or len(fns) < 100:
         raise common.Inconclusive('sweep observed too little: %r calls over %d functions' % (tot['calls'], len(fns)))
     samples = [dict(function=k, calls=v['calls'], ok=v['ok'], err=v['err']) for k, v in sorted(fns.items())[:30:3]]
@@ -98,7 +122,7 @@ def main(tier):
                     'plus seeded allocation histories (length <= 200) over parser/catalogues/errors/crystals with random release order, replayed 3x for the balance; '
                     'distinct = functions driven + distinct (function, error path) pairs reached under the sanitizers + object kinds created in histories',
                samples=samples + [dict(history_objects=k[0], count=v) for k, v in sorted(hops.items())][:12], functions=len(fns),
-               fuzz_executions={k: v[0] for k, v in fz.items()}, fuzz_features_covered={k: v[1] for k, v in fz.items()},
+               line_coverage_percent=reach, fuzz_executions={k: v[0] for k, v in fz.items()}, fuzz_features_covered={k: v[1] for k, v in fz.items()},
                histories=htot['histories'], history_steps=htot['steps'], valgrind_histories=200 if tier == 'quick' else 2000, error_paths=len(paths), leak_rechecks=tot['leakchecks'],
                sanitizer='gcc -fsanitize=address,undefined -fno-sanitize-recover=all', configs=['shipped', 'kissel'])
     return ck.finish(cov, ['red-zone sanitizers miss non-adjacent overflows and reuse after quarantine',
